@@ -164,10 +164,36 @@ fn spawn_all(env: &mut Env, procs: &[(Api, u64)], log: &std::path::Path, tag: &s
     done
 }
 
+/// Executables an invocation started, as recorded in its own trace directory: command
+/// executables (helper start records) and `git` (records of the wrapper below).
 fn helper_starts(dir: &std::path::Path) -> usize {
     std::fs::read_dir(dir)
-        .map(|rd| rd.flatten().filter(|e| e.file_name().to_string_lossy().ends_with(".start.json")).count())
+        .map(|rd| {
+            rd.flatten()
+                .filter(|e| {
+                    let n = e.file_name().to_string_lossy().to_string();
+                    n.ends_with(".start.json") || n.starts_with("git-")
+                })
+                .count()
+        })
         .unwrap_or(0)
+}
+
+/// `git` on the PATH of every invocation of this case is a wrapper that leaves a record in the
+/// invocation's trace directory and then runs the real git.
+fn install_git_wrapper(env: &mut Env) {
+    let real = ["/usr/bin/git", "/usr/local/bin/git", "/bin/git"].iter().find(|p| std::path::Path::new(p).exists()).copied();
+    let Some(real) = real else { return };
+    let bin = env.case_dir.join("bin");
+    let _ = std::fs::create_dir_all(&bin);
+    let script = format!("#!/bin/sh\nif [ -n \"$MRV_TRACE\" ]; then echo \"$*\" > \"$MRV_TRACE/git-$$.log\" 2>/dev/null; fi\nexec {} \"$@\"\n", real);
+    let p = bin.join("git");
+    if std::fs::write(&p, script).is_ok() {
+        use std::os::unix::fs::PermissionsExt;
+        let _ = std::fs::set_permissions(&p, std::fs::Permissions::from_mode(0o755));
+        let path = std::env::var("PATH").unwrap_or_else(|_| "/usr/bin:/bin".into());
+        env.extra_env.push(("PATH".into(), format!("{}:{}", bin.display(), path)));
+    }
 }
 
 /// (i): the conservative intervals [lock.acquired, lock.release] of different
@@ -246,6 +272,7 @@ pub fn check(case: &Case, w: usize) -> CheckResult {
     };
     let mut env = Env::new(w);
     env.install_config(&cfg);
+    install_git_wrapper(&mut env);
     let mut beh = BTreeMap::new();
     beh.insert(("c0".to_string(), "t0".to_string()), Behavior { sleep_ms: 5, ..Default::default() });
     beh.insert(("c0".to_string(), "t1".to_string()), Behavior { sleep_ms: 5, ..Default::default() });
@@ -569,7 +596,7 @@ pub fn run(ctx: &mut Ctx) {
 phase B: a holder kept inside its critical section (a `run` whose helper blocks on a gate, or any of the APIs delayed at the `lock.held` point right after it obtained its lock guard), 1-7 contenders started while it is inside, \
 0-2 late contenders started 110-400 ms before the holder ends, holder termination by normal exit, failing run or SIGKILL, then one more invocation. oracle: (i) from the point log, [lock.acquired, lock.release] intervals of different processes never overlap (a killed \
 holder's interval ends at a time stamp taken before the kill); (ii) a process that never acquired, and every contender that ran while the holder was provably inside, ends non-zero with a lock error, \
-starts no executable (own trace directory), and the out directory is byte-identical before/after the contenders; (iii) after the holder ended the next invocation does not get a lock error; (iv) a process whose bind attempt (lock.attempt) fell inside another process's holding interval, with 100 ms to spare before the release, never acquires. \
+starts no executable (own trace directory: command executables and, through a wrapper on PATH, git), and the out directory is byte-identical before/after the contenders; (iii) after the holder ended the next invocation does not get a lock error; (iv) a process whose bind attempt (lock.attempt) fell inside another process's holding interval, with 100 ms to spare before the release, never acquires. \
 phase C: the four APIs started, in a generated order, by a command executable of the lock-holding run itself (same environment): each must be refused with a lock error, start nothing and leave the checkpoint alone. non-trivial = at least one contender overlapped the holder; distinct by SHA-256"
         .to_string();
     ctx.assumptions = vec![
